@@ -59,7 +59,9 @@ FillOK(o, o2, bar) ==
       hitBefore == o.type = "stoplimit" /\ o.stopHit
   IN dB > 0 =>
      /\ dQ > 0
-     /\ AtLeast(bar.l) /\ AtMost(bar.h)                                   \* inside the bar, never better than its extreme
+     \* nobody trades better than the bar's extreme; market and stop orders trade inside the low-high range
+     /\ (IF o.op = "buy" THEN AtLeast(bar.l) ELSE AtMost(bar.h))
+     /\ (o.type \in {"market", "stop"} => AtLeast(bar.l) /\ AtMost(bar.h))
      /\ (o.type \in {"limit", "stoplimit"} =>
            IF o.op = "buy" THEN AtMost(o.limit) /\ bar.l <= o.limit
                            ELSE AtLeast(o.limit) /\ bar.h >= o.limit)
